@@ -420,7 +420,14 @@ impl ProtocolSet {
 
         while !futures.is_empty() {
             if let Some(Err(error)) = futures.next().await {
-                return Err(error.into());
+                // The protocol has exited and dropped its `TransportService`. This must not
+                // prevent the remaining protocols from learning about the connection.
+                tracing::debug!(
+                    target: LOG_TARGET,
+                    ?peer,
+                    ?error,
+                    "failed to report connection established to protocol",
+                );
             }
         }
 
